@@ -19,7 +19,17 @@ from . import ctx
 from .field import Buffer, S, View, _maybe_int, _norm_slice
 from .sym import BoolSym, Sym, Unsupported, ite, mk_atom, smax, smin
 
-_ids = itertools.count()
+class _Counter:
+    def __init__(self):
+        self.n = 0
+
+    def __next__(self):
+        self.n += 1
+        return self.n - 1
+
+
+_ids = _Counter()
+ctx.RESET_HOOKS.append(lambda: setattr(_ids, "n", 0))
 
 
 def _is_symbolic_shape(shape):
@@ -47,6 +57,15 @@ class Lazy:
 
     def copy(self):
         return self
+
+    def as_view(self, name="lazy"):
+        """a read-only field whose content is DEFINED by this expression (usable as a kernel argument)"""
+        v = getattr(self, "_view", None)
+        if v is None:
+            b = Buffer(f"{name}{next(_ids)}", [S(n) for n in self.shape])
+            b.init = self.fn
+            v = self._view = b.full_view()
+        return v
 
     def __len__(self):
         n = self.shape[0]
